@@ -34,6 +34,12 @@ import (
 // tarDirectory walks the directory specified by path, and tar those files with a new
 // path prefix.
 func tarDirectory(ctx context.Context, root, prefix string, w io.Writer, removeTimes bool, buf []byte) (err error) {
+	// filepath.Walk does not follow symbolic links, the root included: a root
+	// that is a symbolic link to a directory would be archived as a single
+	// link entry instead of the directory it stands for
+	if root, err = filepath.EvalSymlinks(root); err != nil {
+		return err
+	}
 	tw := tar.NewWriter(w)
 	defer func() {
 		closeErr := tw.Close()
